@@ -1015,7 +1015,10 @@ func replayExpo(g *vh.Graph, c *Cfg, vals []AVal, rep int, tw *vh.TraceWriter, r
 		if expoEqual(got, want.Ipt, false) {
 			res.Count("equals_impl_shaped_state", 1)
 		}
-		if !expoEqual(got, want.Pt, false) {
+		if chkDiffers(lines) {
+			res.Count("replayed_reports_changed_later", 1)
+		}
+		if !expoEqual(got, want.Pt, false) || chkDiffers(lines) {
 			res.AddMismatch(vh.Mismatch{Kind: "refdiff", Case: map[string]any{"sc": i}, Path: acts[:len(acts)-1], Act: acts[len(acts)-1],
 				Want: want.Pt, Got: got, Detail: fmt.Sprintf("concrete values %v", concList(ops))})
 			for _, l := range lines {
@@ -1026,6 +1029,23 @@ func replayExpo(g *vh.Graph, c *Cfg, vals []AVal, rep int, tw *vh.TraceWriter, r
 			res.Sample(map[string]any{"ops": acts, "values": concList(ops), "to": want.Pt, "got": got})
 		}
 	}
+}
+
+// chkDiffers pre-filters a replayed scenario: does any later fingerprint of a reported point
+// differ from the one taken when it was reported? (The verdict is Trace_Hist's.)
+func chkDiffers(lines []map[string]any) bool {
+	var fps []string
+	for _, l := range lines {
+		switch l["ev"] {
+		case "Col":
+			fps = append(fps, l["fp"].(string))
+		case "Chk":
+			if k := l["k"].(int); k < 1 || k > len(fps) || fps[k-1] != l["fp"].(string) {
+				return true
+			}
+		}
+	}
+	return false
 }
 
 func concList(ops []SOp) []string {
@@ -1216,7 +1236,10 @@ func replayExpl(g *vh.Graph, c *Cfg, vals []hVal, rep int, tw *vh.TraceWriter, r
 			continue
 		}
 		got := last.(HObs)
-		if !histEqual(got, want.Pt, c.Quant) {
+		if chkDiffers(lines) {
+			res.Count("replayed_reports_changed_later", 1)
+		}
+		if !histEqual(got, want.Pt, c.Quant) || chkDiffers(lines) {
 			res.AddMismatch(vh.Mismatch{Kind: "refdiff", Case: map[string]any{"sc": i}, Path: acts[:len(acts)-1], Act: acts[len(acts)-1],
 				Want: want.Pt, Got: got, Detail: fmt.Sprintf("bounds %v values %v", c.FBounds, concList(ops))})
 			for _, l := range lines {
